@@ -30,22 +30,30 @@ func (rr *RoundRobinStrategy) NextBackend(r *http.Request) *Backend {
 		return nil
 	}
 
-	// Get the next index in a thread-safe way
+	// Advance the cursor to the next backend that is marked healthy: the rotation
+	// is exact among the healthy backends and a request finds one whenever there
+	// is one. The compare-and-swap makes "next healthy slot after the cursor" a
+	// single atomic step for concurrent callers.
 	n := uint64(len(rr.backends))
-	idx := atomic.AddUint64(&rr.current, 1) % n
-
-	// Skip backends that are marked unhealthy: scan the rotation once, starting
-	// at the drawn slot, so that a healthy backend is found whenever there is one.
-	for i := uint64(0); i < n; i++ {
-		backend := rr.backends[(idx+i)%n]
-		backend.Mutex.RLock()
-		healthy := backend.IsHealthy
-		backend.Mutex.RUnlock()
-		if healthy {
-			return backend
+	for {
+		cur := atomic.LoadUint64(&rr.current)
+		step := uint64(1)
+		for ; step <= n; step++ {
+			backend := rr.backends[(cur+step)%n]
+			backend.Mutex.RLock()
+			healthy := backend.IsHealthy
+			backend.Mutex.RUnlock()
+			if healthy {
+				break
+			}
+		}
+		if step > n {
+			step = 1 // nobody is marked healthy: plain rotation, the caller decides
+		}
+		if atomic.CompareAndSwapUint64(&rr.current, cur, cur+step) {
+			return rr.backends[(cur+step)%n]
 		}
 	}
-	return rr.backends[idx]
 }
 
 // AddBackend adds a backend to the pool
